@@ -14,6 +14,7 @@ import (
 	"errors"
 	"fmt"
 	"io"
+	"math"
 	"sync"
 	"time"
 
@@ -200,8 +201,8 @@ func (uw *unmarshalWork) Unmarshal() {
 			}
 			if row.Timestamp == NoTimestamp {
 				row.Timestamp = currentTs
-			} else {
-				row.Timestamp *= tsMultiplier
+			} else if row.Timestamp, err = scaleTimestamp(row.Timestamp, tsMultiplier); err != nil {
+				break
 			}
 		}
 	} else if tsMultiplier < 0 {
@@ -215,14 +216,23 @@ func (uw *unmarshalWork) Unmarshal() {
 			}
 			if row.Timestamp == NoTimestamp {
 				row.Timestamp = currentTs
-			} else {
-				row.Timestamp *= tsMultiplier
+			} else if row.Timestamp, err = scaleTimestamp(row.Timestamp, tsMultiplier); err != nil {
+				break
 			}
 		}
 	}
 
 	uw.Callback(uw.Db, rows, err)
 	putUnmarshalWork(uw)
+}
+
+// scaleTimestamp converts a timestamp written in the request's precision to nanoseconds.
+// A value that does not fit is rejected (it used to wrap around and the point was stored at an unrelated time).
+func scaleTimestamp(ts, multiplier int64) (int64, error) {
+	if ts > math.MaxInt64/multiplier || ts < math.MinInt64/multiplier {
+		return ts, fmt.Errorf("cannot parse timestamp %d: out of range for the precision of the request", ts)
+	}
+	return ts * multiplier, nil
 }
 
 func (uw *unmarshalWork) Cancel(reason string) {
